@@ -397,9 +397,16 @@ func customC09(t *testing.T, e *mc.Explorer) *mc.ShardResult {
 	start := time.Now()
 	res := e.Explore(t)
 	cases := uGrammar(e.Tier)
-	n, herr := observeAllKeys(t, e, cases, "c09")
+	n, herr, incomplete := observeAllKeys(t, e, cases, "c09")
 	if herr != "" {
 		res.HarnessErrs = append(res.HarnessErrs, herr)
+	}
+	if incomplete {
+		res.Exhaustive = false
+		if res.Notes == nil {
+			res.Notes = map[string]int{}
+		}
+		res.Notes["the time budget ended before every shard had published its slice of the key observations"]++
 	}
 	res.Executions += int64(n)
 	res.Transitions += int64(3 * n)
@@ -408,7 +415,9 @@ func customC09(t *testing.T, e *mc.Explorer) *mc.ShardResult {
 	}
 	byStrict := map[string][]*uCase{}
 	for _, c := range cases {
-		byStrict[c.strict.String()] = append(byStrict[c.strict.String()], c)
+		if c.key != "" {
+			byStrict[c.strict.String()] = append(byStrict[c.strict.String()], c)
+		}
 	}
 	forms := make([]string, 0, len(byStrict))
 	for f := range byStrict {
@@ -418,6 +427,14 @@ func customC09(t *testing.T, e *mc.Explorer) *mc.ShardResult {
 	viol := map[string]*mc.Violation{}
 	pairs, classes := 0, 0
 	for _, f := range forms {
+		if !e.Deadline.IsZero() && time.Now().After(e.Deadline) { // the budget ended: report what was completed
+			res.Exhaustive = false
+			if res.Notes == nil {
+				res.Notes = map[string]int{}
+			}
+			res.Notes["time budget ended inside the URI passes"]++
+			break
+		}
 		class := byStrict[f]
 		if len(class) < 2 {
 			continue
